@@ -14,7 +14,7 @@ def mk_array(items, dict_entries=None, tag=None):
     return Adt('Array', 0, [Adt('VecDeque', 0, [HList(list(items))]), HMap([list(e) for e in (dict_entries or [])], False, tag)])
 
 
-def sym_val(vm, name, arr_max=2, depth=1, dict_max=1, kinds=None, str_factory=None):
+def sym_val(vm, name, arr_max=2, depth=1, dict_max=1, kinds=None, str_factory=None, elem_kinds=None):
     """a Val whose kind is a solver variable; payloads are created when first inspected.
     Arrays: sequence length forked 0..=arr_max with lazily symbolic elements (depth-1), dictionary with 0..=dict_max entries."""
     allowed = kinds if kinds is not None else list(range(6))
@@ -36,11 +36,11 @@ def sym_val(vm, name, arr_max=2, depth=1, dict_max=1, kinds=None, str_factory=No
             return [rc(s)]
         if v == 5:
             n = vm.fork(arr_max + 1, note=f'{name}.len')
-            items = [sym_val(vm, f'{name}[{i}]', arr_max, depth - 1, dict_max, None, str_factory) for i in range(n)]
+            items = [sym_val(vm, f'{name}[{i}]', arr_max, depth - 1, dict_max, elem_kinds, str_factory) for i in range(n)]
             nd = vm.fork(dict_max + 1, note=f'{name}.dictlen') if dict_max else 0
             ents = []
             for j in range(nd):
-                ents.append([sym_dictkey(vm, f'{name}.k{j}', str_factory), sym_val(vm, f'{name}.d{j}', arr_max, depth - 1, dict_max, None, str_factory)])
+                ents.append([sym_dictkey(vm, f'{name}.k{j}', str_factory), sym_val(vm, f'{name}.d{j}', arr_max, depth - 1, dict_max, elem_kinds, str_factory)])
             if nd == 2:   # keys of a map are pairwise distinct
                 pass
             return [rc(mk_array(items, ents, tag=f'{name}.dict'))]
